@@ -336,7 +336,13 @@ pub fn sync_loop_run(world: &World, seed: u64, tag: &str, cfg: &SyncCfg) -> Sync
 			// next deadline), seeded jumps
 			let mut dt = asked;
 			if idle >= 3 {
-				dt += Duration::from_millis(*rng.pick(&[500u64, 1_000, 2_500, 7_000, 21_000, 61_000]));
+				let mut skip = *rng.pick(&[500u64, 1_000, 2_500, 7_000, 21_000, 61_000]);
+				// (a peer that needs more than 120 s for its headers is banned as a fraud by HeaderSync's
+				// stall rule, progress or not: short-batch runs do not let the idle skips add up to that)
+				if cfg.short_batches && last_status == "HeaderSync" {
+					skip = skip.min(2_500);
+				}
+				dt += Duration::from_millis(skip);
 				bump!(out.probes, "idle_clock_skip");
 			}
 			if faults_on && rng.chance(4, 100) {
@@ -1186,6 +1192,35 @@ pub fn runs_for_c16(world: &mut World, res: &mut crate::sim::CaseResult, seed: u
 	}
 }
 
+/// A branch for the receiver to start on that the served chain outweighs by far more than the sync
+/// loop's "close to the tip" threshold (five blocks' work): 5-8 blocks hanging 12-16 blocks below the
+/// winner's tip (inside the horizon, so that header sync + body sync have to do it). A peer that
+/// sends its headers a few at a time then delivers several batches that carry less work than the
+/// receiver's own header head before the served branch overtakes it; nothing but the loop itself can
+/// bring the node over (the gossip tail stays out of it: more than five blocks to go).
+pub fn add_deep_lighter_branch(world: &mut World) -> Option<Vec<usize>> {
+	let winner = world.winner();
+	let wpath = world.path_to(winner);
+	let wh = world.blocks[winner].height;
+	if wh < 13 {
+		return None;
+	}
+	let fork_h = wh.saturating_sub(16).max(1);
+	let depth = (wh - fork_h).saturating_sub(7).min(8);
+	if depth < 5 {
+		return None;
+	}
+	let mut p = *wpath.iter().find(|i| world.blocks[**i].height == fork_h)?;
+	let br = world.blocks.iter().map(|b| b.branch).max().unwrap_or(0) + 1;
+	for _ in 0..depth {
+		p = world.extend(p, br).ok()?;
+	}
+	if world.winner() != winner {
+		return None;
+	}
+	Some(world.path_to(p))
+}
+
 /// C03: a chainsim world (forks inside the horizon, real proof of work) reaches the node through its
 /// own sync loop. The receiver starts on a branch the serving chain outweighs, on a prefix of the
 /// serving chain, or empty.
@@ -1217,6 +1252,15 @@ pub fn case_c03(tier: &str, seed: u64, case: u64) -> crate::sim::CaseResult {
 		starts.push(wpath.iter().cloned().take((wh - 12) as usize).collect());
 	}
 	starts.push(vec![]);
+	// first of all: from a branch far behind, against a peer that sends headers a few at a time
+	let deep = add_deep_lighter_branch(&mut world);
+	let has_deep = deep.is_some();
+	if let Some(d) = deep {
+		starts.insert(0, d);
+		res.probe("sync_start_on_deep_lighter_branch");
+	}
+	let mut world_replay = world_replay;
+	world_replay["deep_branch"] = serde_json::json!(has_deep);
 	for (i, pre) in starts.into_iter().enumerate() {
 		let mut rr = rng.fork(&format!("run{}", i));
 		// where the receiver's chain leaves the serving chain
@@ -1230,7 +1274,8 @@ pub fn case_c03(tier: &str, seed: u64, case: u64) -> crate::sim::CaseResult {
 		if pre.iter().any(|id| !wpath.contains(id)) {
 			res.probe("sync_start_on_lighter_branch");
 		}
-		let faulty = i % 2 == 0;
+		let deep_run = has_deep && i == 0;
+		let faulty = i % 2 == 0 && !deep_run;
 		let pibd = rr.chance(1, 2);
 		let cfg = SyncCfg {
 			prop: "C03".into(),
@@ -1276,6 +1321,9 @@ pub fn replay(rp: &Value) -> Result<Option<Violation>, String> {
 		Some("pibd") => crate::pibdsim::build_world(seed, w["long"].as_bool().unwrap_or(false), w["fat"].as_bool().unwrap_or(false), w["quiet"].as_bool().unwrap_or(false))?,
 		_ => crate::checks::build_world_with(w["property"].as_str().unwrap_or("C03"), w["tier"].as_str().unwrap_or("quick"), seed, crate::netsim::net_world_tweak)?,
 	};
+	if w["deep_branch"].as_bool().unwrap_or(false) {
+		add_deep_lighter_branch(&mut world);
+	}
 	let cfg = cfg_from(&rp["cfg"]);
 	if w["reorg_branch"].as_bool().unwrap_or(false) {
 		let mut rr = SimRng::new(seed).fork("reorg-branch");
